@@ -34,7 +34,7 @@ COMPONENTS_STUB = ["set iteration order of Grammar symbol sets (OrderedSimSet); 
 ASSUMPTIONS = ["tree-depth mode (expansion_depthing=False)", "minimum depth = depth of the shallowest derivable program; lists may be empty when their size refinement allows it",
                "productions of A = registered classes whose first base is A"]
 
-FEAT = features(list=2, annlist=2, union=2, tuple=2, nested=2, unreachable=2, standalone=2, cls=8, refined=2, plain=2, concrete_start=1, bool=2, nested_generic=1)
+FEAT = features(list=2, annlist=2, union=2, tuple=2, nested=2, unreachable=2, standalone=2, cls=8, refined=2, plain=2, concrete_start=1, bool=2, nested_generic=1, self_ref=1, deep_chain=1, nested_list=1)
 
 
 def budget(tier):
@@ -114,7 +114,8 @@ def compare(ctx, spec, b, ref, g, tag):
         if got != want:
             direction = "overestimate" if (got is None or got > want) else "underestimate"
             cause = cause_of(ref, n, a["distance"], minds)
-            if got == libc[n] and cause in ("list", "annlist"):
+            same_as_convention = got == libc[n] or (got is not None and got >= 10**6 and libc[n] >= 10**6)
+            if same_as_convention and cause in ("list", "annlist"):
                 # the library's documented convention: a list is assumed to need one element (conservative)
                 sig = f"C05/mindepth/{direction}/field-kind={cause}"
             else:
@@ -211,6 +212,46 @@ def check_usable(ctx, spec, b, ref, g, tag):
                 return
 
 
+def second_grammar(ctx, H, spec, b, g1, a1):
+    """F13: another grammar is extracted from the SAME classes in the same process (another start symbol, a subset of the
+    productions, or the other depth-counting mode); afterwards the first grammar must still report what it reported before,
+    and the second one must be exact for its own specification"""
+    import copy
+    from geneticengine.grammar.grammar import extract_grammar
+
+    spec2 = copy.deepcopy(spec)
+    how = H.pick(["start", "subset", "mode"])
+    concretes = [c["name"] for c in spec["classes"] if c["kind"] in ("data", "plain")]
+    if how == "start":
+        cands = [c["name"] for c in spec["classes"] if c["name"] != spec["start"] and c["name"][0] in "AC"]
+        if not cands:
+            return
+        spec2["start"] = H.pick(cands)
+    elif how == "subset":
+        if len(spec2["considered"]) < 2:
+            return
+        drop = H.pick([n for n in spec2["considered"]])
+        spec2["considered"] = [n for n in spec2["considered"] if n != drop]
+    else:
+        spec2["expansion_depthing"] = not spec.get("expansion_depthing", False)
+    ctx.faults["carry_over"] += 1
+    ctx.stat("second_grammars:" + how)
+    try:
+        g2 = extract_grammar([b.cls[n] for n in spec2["considered"]], b.cls[spec2["start"]], spec2["expansion_depthing"])
+    except Exception:
+        g2 = None  # e.g. a start symbol without derivations: the library may reject it
+    again = analysis(b, g1)
+    if again != a1:
+        keys = [k for k in a1 if a1[k] != again[k]]
+        ctx.violate(f"C05/first-grammar-changed-by-second-extraction/{'+'.join(keys)}",
+                    f"after extracting a second grammar from the same classes ({how}) the first grammar reports different {keys}: "
+                    f"{[(n, a1['distance'][n], again['distance'].get(n)) for n in a1['distance'] if a1['distance'][n] != again['distance'].get(n)][:4]}")
+        return
+    if g2 is not None and how != "mode":
+        ref2 = Ref(spec2, b)
+        compare(ctx, spec2, b, ref2, g2, f"second grammar ({how})")
+
+
 _CORPUS = None
 
 
@@ -271,7 +312,7 @@ def run(ctx):
         return run_corpus(ctx, ctx.params["corpus"])
     if H.draw(4) == 3:
         # grammar-expansion depthing: modelled where the documentation defines it (no lists, tuples, unions)
-        spec = gen_spec(H, features(**{**FEAT, "list": 0, "annlist": 0, "union": 0, "tuple": 0, "interval": 0}))
+        spec = gen_spec(H, features(**{**FEAT, "list": 0, "annlist": 0, "union": 0, "tuple": 0, "interval": 0, "self_ref": 0, "nested_list": 0, "nested_generic": 0}))
         spec["expansion_depthing"] = True
         ctx.stat("expansion_depthing_specs")
     else:
@@ -303,6 +344,8 @@ def run(ctx):
             a = compare(ctx, spec, b, ref, g, f"order seed {order}")
             check_usable(ctx, spec, b, ref, g, f"order seed {order}")
             results.append(a)
+            if order == s1 and not ctx.violations and H.draw(3) == 2:
+                second_grammar(ctx, H, spec, b, g, a)
         finally:
             b.dispose()
         if ctx.violations:
